@@ -1,7 +1,11 @@
 ------------------------------ MODULE TickImpl ------------------------------
 (* C09 / C10 / C12 — implementation-shaped model of wake-up scheduling:
      modeling/ticker.go        TickScheduler.TickNow / TickLater and their dedup guard
-                               (hasScheduledTick is never cleared), TickingComponent.Handle
+                               (hasScheduledTick is never cleared; since the W1 repair the
+                               scheduler also remembers that the tick at nextTickTime has
+                               been handled — markTickHandled — and TickNow then wakes the
+                               component at its next edge instead of dropping the request),
+                               TickingComponent.Handle
      modeling/eventdriven.go   ScheduleWakeAt / pendingWakeup, Handle, NotifyRecv/NotifyPortFree
      messaging/port.go         Send / Deliver / RetrieveIncoming / RetrieveOutgoing and the
                                four notifications with their exact trigger conditions
@@ -16,7 +20,8 @@
    model ends with a lost wake-up, and is then replayed on the real packages.      *)
 EXTENDS Integers, Sequences, FiniteSets, TLC, Json
 
-CONSTANTS TopoId, MaxSends, MaxWakes, Horizon, WakeDelays
+CONSTANTS TopoId, MaxSends, MaxWakes, Horizon, WakeDelays,
+          Repaired      \* TRUE: ticker.go after the W1 repair (tickHandled); FALSE: the design before it (negative control)
 Inf == 1000000
 
 (* ---------- topologies (time unit = 1000 ps) ---------- *)
@@ -67,14 +72,17 @@ vars == <<time, G, inb, outb, nextPort, run, sendsLeft, wakesLeft, nmsg, script,
 (* ---------- scheduler operators: state transformers on G ---------- *)
 Sched(g, c, t) == [g EXCEPT !.evq = @ \cup {[c |-> c, t |-> t, sec |-> (Def(c).kind = "conn"), ord |-> g.ord]},
                             !.ord = @ + 1]
-TickNowOp(g, c, now) ==
-    IF g.guard[c].has /\ g.guard[c].next >= now THEN g
-    ELSE LET t == ThisTick(now, Def(c).period) IN
-         Sched([g EXCEPT !.guard[c] = [has |-> TRUE, next |-> t]], c, t)
 TickLaterOp(g, c, now) ==
     LET t == NextTick(now, Def(c).period) IN
     IF g.guard[c].has /\ g.guard[c].next >= t THEN g
-    ELSE Sched([g EXCEPT !.guard[c] = [has |-> TRUE, next |-> t]], c, t)
+    ELSE Sched([g EXCEPT !.guard[c] = [has |-> TRUE, next |-> t, handled |-> FALSE]], c, t)
+TickNowOp(g, c, now) ==
+    IF g.guard[c].has /\ g.guard[c].next >= now
+    THEN IF Repaired /\ g.guard[c].handled /\ g.guard[c].next = now
+         THEN TickLaterOp(g, c, now)        \* the tick of this instant already ran: next edge
+         ELSE g
+    ELSE LET t == ThisTick(now, Def(c).period) IN
+         Sched([g EXCEPT !.guard[c] = [has |-> TRUE, next |-> t, handled |-> FALSE]], c, t)
 WakeAtOp(g, c, t) ==
     IF g.pend[c] # Inf /\ g.pend[c] <= t THEN g
     ELSE Sched([g EXCEPT !.pend[c] = t], c, t)
@@ -94,7 +102,7 @@ Init == /\ time = 0
         /\ script = [c \in CompNames |-> <<>>] /\ acts = <<>>
         /\ lastTick = [c \in AllNames |-> -1] /\ tickOK = TRUE
         /\ LET g0 == [evq |-> {}, ord |-> 0,
-                      guard |-> [c \in Ticking |-> [has |-> FALSE, next |-> 0]],
+                      guard |-> [c \in Ticking |-> [has |-> FALSE, next |-> 0, handled |-> FALSE]],
                       pend |-> [c \in EDs |-> Inf]]
                RECURSIVE Kick(_, _)
                Kick(g, i) == IF i > Len(T.comps) THEN g
@@ -109,7 +117,10 @@ Dispatch ==
     /\ Idle /\ G.evq # {}
     /\ LET e == CHOOSE x \in G.evq : \A y \in G.evq \ {x} : Less(x, y) IN
        /\ time' = e.t
-       /\ G' = [G EXCEPT !.evq = @ \ {e}, !.pend = IF e.c \in EDs THEN [@ EXCEPT ![e.c] = Inf] ELSE @]
+       /\ G' = [G EXCEPT !.evq = @ \ {e}, !.pend = IF e.c \in EDs THEN [@ EXCEPT ![e.c] = Inf] ELSE @,
+                         \* markTickHandled (Handle of a ticking component / connection)
+                         !.guard = IF e.c \in Ticking /\ @[e.c].has /\ @[e.c].next = e.t
+                                   THEN [@ EXCEPT ![e.c].handled = TRUE] ELSE @]
        /\ run' = [c |-> e.c, phase |-> (IF e.c \in ConnNames THEN "fwd" ELSE "drain"), i |-> 0, did |-> FALSE]
        /\ tickOK' = (tickOK /\ (e.c \in Ticking => (e.t % Def(e.c).period = 0 /\ e.t > lastTick[e.c])))
        /\ lastTick' = [lastTick EXCEPT ![e.c] = e.t]
